@@ -182,7 +182,11 @@ def step (st : State) : Stmt → Except Fail State
     | some s =>
       if n = 0 ∨ top ≤ n then .error .range else
       let off := (s.base + s.buf.length) % n   -- the true cursor (fix F26): not the saturated `curr_addr`
-      if off = 0 then .ok st else append st (placeholder (n - off))
+      if off = 0 then .ok st
+      -- `has_remaining(n - off)` decided from the NUMBER before any padding exists (exactly what `append` decides)
+      else if s.maxLen < s.buf.length then .error .panic
+      else if n - off ≤ s.remaining then append st (placeholder (n - off))
+      else .error .overflow
   | .label n =>
     match st.active with
     | none => .error .inactive
